@@ -314,6 +314,13 @@ class Check:
         self.violations.append({"what": what, "replay": replay})
 
     def known(self, fid: str, what: str, example=None):
+        """A failure attributed to a listed finding.  Only an OPEN record suppresses: a finding
+        recorded as fixed (or not listed at all) that shows again is a violation."""
+        rec = [f for f in self.findings if f.get("id") == fid and f.get("status") == "open"]
+        if not rec:
+            self.violation(f"{fid} is not an open known finding (fixed or unlisted) but the failure is present: {what}",
+                           {"finding": fid, "example": example})
+            return
         if fid not in self.known_seen:
             self.known_seen[fid] = {"what": what, "example": example}
 
